@@ -1,9 +1,65 @@
+"""Single place to edit the per-property claims; run tools/mkmanifest.py afterwards."""
+
+_COMMON_NOTE = ("Trusts rustc, Kani 0.68 + CBMC 6.11 + CaDiCaL, Verus 0.2026.09.13 + z3, the item scanner/extractor (tools/rustscan.py, tools/vx.py, rules X1-X4) "
+                "and that binrw derives expand identically under cfg(kani). In every Kani unit the drop glue of binrw::Error is a no-op (tools/goto-instrument-wrapper.py). "
+                "Units labelled S hold for all contents of the listed concrete shapes only; units labelled B are bounded stand-ins and are not counted as proved. "
+                "Clauses listed under coverage.not_decided in the evidence file are NOT decided by this check.")
+
 CHECKS = {
+ "C01": dict(level="other",
+   text="Kernels of the lookup path under contract: JAMCRC table and checksum proved for byte strings of any length (Verus, against the bit-serial definition); the 32-bit entry word and the Index1/Index2 entry records proved for all contents (Kani); find_entry/exists and the path-to-repository split bounded (3 entries; listed path shapes). The end-to-end lookup over the file system and the memo clause are not decided.",
+   note=_COMMON_NOTE, technique="Verus loop-invariant proof of the extracted Jamcrc functions + Kani proof harnesses/contract models over binrw records"),
+ "C02": dict(level="other",
+   text="Block-level kernel under contract: block header grammar (raw/compressed switch) for all contents, read_data_block raw and compressed paths for listed shapes with inflate modelled, the zlib wrapper's call protocol incl. release of the inflate state, ModelMemorySizes::total, the synthesized model file header layout (thorough). Reassembly of standard/model/texture entries from a dat file is not decided.",
+   note=_COMMON_NOTE + " libz-rs-sys (inflate) is modelled, not verified.", technique="Kani proof harnesses with stubbed (modelled) callees over the real block readers"),
+ "C03": dict(level="other",
+   text="Chunk grammar and block codec under contract: SqpkAddData/DeleteData/TargetInfo/EOF chunk records (offsets x128, endianness, platform word), BlockHeader read/write, write_data_block_patch o read_data_block_patch = identity with 128-byte alignment (thorough). The directory-tree effect of ZiPatch::apply is not decided by this family.",
+   note=_COMMON_NOTE, technique="Kani proof harnesses over derive-generated chunk parsers (all contents per shape)"),
+ "C05": dict(level="other",
+   text="Cell decoding under contract: read_column for every column type at listed offsets, all row contents (big-endian integers, float bits, one-byte booleans and packed bits, strings bounded to 2 characters); read_row for single rows, sub-rows and unknown ids on values built in the harness; sheet records. Whole-file parses and archive lookup are not decided.",
+   note=_COMMON_NOTE, technique="Kani proof harnesses over EXD::read_column / read_row (all contents per shape)"),
+ "C06": dict(level="other",
+   text="Every typed attribute reader the model parser dispatches to is proved for all byte contents (byte/255, tangent, IEEE half incl. the half crate's conversion against an integer-only binary16 spec, raw bytes/u16/f32), pad_slice, the vertex element record and declaration block (thorough). The element addressing inside MDL::from_existing is not decided.",
+   note=_COMMON_NOTE + " half: software conversion path (cpuid stubbed to 'no f16c').", technique="Kani full-domain loop-free proof harnesses over the attribute readers"),
+ "C07": dict(level="other",
+   text="Attribute re-encoding proved for every canonical encoding (byte-float, tangent, half, raw); MDL::update_headers proved for all vertex/index counts on the listed mesh layouts and stride sets (sizes, 16-byte padding, disjoint ordered in-bounds sections, header mirroring, frame); runtime-size constants equal the bytes the record writers emit; declaration writer layout. Whole-model write/parse identity is not decided.",
+   note=_COMMON_NOTE, technique="Kani proof harnesses: codec round trips over full domains; update_headers on harness-built MDL values (shape-enumerated)"),
+ "C09": dict(level="other",
+   text="CustomizeData read (plain fields all contents; enum positions thorough) and write for every value at the documented offsets; gear-id marker round trip, gear slot record, slot-index table, DatHeader; the documented checksum formula (thorough, empty comment). Whole-file layouts are not decided.",
+   note=_COMMON_NOTE, technique="Kani proof harnesses over derive-generated records and pure converters"),
+ "C10": dict(level="other",
+   text="SHA-1 padding for every buffered length and total length, digest serialisation, block feeding (bounded), FIIN entry record write (and read, thorough). The compression function, FileInfo::new and the patch-list text format are not decided.",
+   note=_COMMON_NOTE + " Sha1State::process is replaced by a recorder in the padding unit.", technique="Kani proof harnesses with a recording stub for the compression function"),
+ "C11": dict(level="proof",
+   text="Proved for all inputs by Verus on the extracted real functions: F, encrypt_pair = 16-round textbook Blowfish, decrypt_pair = the network with P reversed, decrypt(encrypt(l,r)) = (l,r) for every P and S (induction over rounds), Blowfish::new = the standard key schedule over key[0..8] for every key of at least 8 bytes, and all 1042 table words equal the hex digits of pi computed independently. The step_by loop rewrite (X4) is validated by Kani on every run. Message framing (padding, little-endian words, block order, decrypt o encrypt) is proved by Kani for all contents of messages of the listed lengths.",
+   note=_COMMON_NOTE + " Framing units replace the pair functions by a fixed bijection model (their own contracts are the Verus unit).", technique="Verus deductive proof (requires/ensures/invariants, induction lemmas) on mechanically extracted functions + Kani shape-enumerated framing harnesses"),
+ "C12": dict(level="other",
+   text="Path hash: Jamcrc::checksum = bit-serial JAMCRC (CRC-32 reflected 0xEDB88320, init 0xFFFFFFFF, no final inversion) for byte strings of any length, with the table-vs-bitwise lemma (Verus); SHA-1 padding and serialisation (Kani). SHA-1's compression function, the zlib-backed shader-key CRC and lower-casing stay in the trusted base.",
+   note=_COMMON_NOTE, technique="Verus loop-invariant proof + bit-vector lemma; Kani harnesses for SHA-1 framing"),
+ "C13": dict(level="proof",
+   text="Block level proved for all contents: 565 expansion, BC1 (all 2^64 blocks, both modes), BC3 alpha palette and lanes with frame, BC3 and BC5 blocks, copy_block_buffer content+frame+bounds for any image size up to 65536^2 (Verus), RGBA byte order of Texture::decode. The image-level drivers are bounded (listed image sizes).",
+   note=_COMMON_NOTE + " BC1 blends accept any integer rounding within 2/3 of the exact value; the alpha of BC1's black entry is unconstrained (as the property says). Texture::from_existing's header parse is not inside a proved unit.", technique="Kani loop-free full-domain proof harnesses over the block decoders + Verus proof of copy_block_buffer"),
+ "C14": dict(level="other",
+   text="Half-tuple readers, colour-table rows (legacy 32 B all contents; Dawntrail 64 B thorough), dye-table bit fields for all words, plain material/shader records, sampler record (thorough), find_node (bounded table), build_selector = base-31 polynomial mod 2^32 for key lists of any length (Verus). Whole-file material and shader-package grammars are not decided.",
+   note=_COMMON_NOTE, technique="Kani proof harnesses over derive-generated records + Verus proof of build_selector"),
  "C15": dict(level="proof",
-   text="Race/tribe ownership, race-code definedness and injectivity, enum code sets: proved by Kani for the full finite input domain (function contract on get_supported_tribes, loop-free harnesses over all (race, tribe, gender) triples).",
-   note="Trusts rustc/Kani/CBMC. The String formatters (format!) that turn codes into paths are not inside a proved unit.",
-   technique="Kani function contracts + full-domain loop-free proof harnesses (CBMC)"),
+   text="Proved by Kani over the full finite domains: race r owns exactly tribes 2r-1/2r (function contract on get_supported_tribes), race codes defined exactly for own tribes and injective on body types, enum code sets, slot tables and abbreviation bijection, gear-slot/equipment-slot bijection, Ord for Repository (base first, expansions by number, antisymmetric) and sort of 3, category codes. The String formatters are outside the proved units (deconstruct_equipment_path: thorough).",
+   note=_COMMON_NOTE, technique="Kani function contracts + full-domain loop-free proof harnesses"),
+ "C16": dict(level="other",
+   text="Records returned exactly as stored (racial scaling 56 B, plate position, deformer link: all contents), terrain grid arithmetic write o read = id for every i16, Havok byte reader, packed integers (1..3 bytes) and bit fields. Skeleton/Havok object graph, layer groups and the deformer chain walk are not decided.",
+   note=_COMMON_NOTE, technique="Kani proof harnesses over records and arithmetic kernels"),
+ "C17": dict(level="other",
+   text="Bounded panic-freedom (every implicit check CBMC generates: overflow, bounds, unwrap) on the listed helpers and early-failing entry points: read_string, Blowfish framing and key schedule (Verus: no overflow / out-of-bounds for keys >= 8 bytes), ChatLog header, gear-set header, DatHeader. The whole-file/text entry points and every resource clause are not decided.",
+   note=_COMMON_NOTE, technique="Kani bounded model checking of panic-freedom contracts (ensures true, all implicit checks discharged)"),
+ "C18": dict(level="other",
+   text="Bounded panic-freedom on the listed decoders: BCn image drivers incl. short data (Err), copy_block_buffer bounds (Verus, unbounded), typed model attribute readers on short cursors, CMP on truncated buffers, find_node with wild alias targets, Havok packed ints, inflate-state release on failed decompression (zlib modelled). Whole-file asset parsers, archives on disk and resource clauses are not decided.",
+   note=_COMMON_NOTE, technique="Kani bounded model checking of panic-freedom contracts + Verus bounds proof"),
 }
-NOT_APPLICABLE = {k: "check not built yet (work in progress, see DESIGN.md section 4)" for k in
-  ["C01","C02","C03","C04","C05","C06","C07","C08","C09","C10","C11","C12","C13","C14","C16","C17","C18"]}
-NOTES = "See DESIGN.md. Exit codes of ./check: 0 all obligations discharged; 1 VIOLATION; 2 undecided (never an alarm)."
+
+NOT_APPLICABLE = {
+ "C04": "quantifies over pairs of directory trees; ZiPatch::create is read_dir recursion, fs::metadata and PathBuf comparison and its post-state is a directory tree - no Verus/Kani contract can express it without a hand-written model of std::fs (a different family). Its only reachable kernel (write_data_block_patch / read_data_block_patch inverse) is decided under C03.",
+ "C08": "ConfigFile and EXL are BufRead::lines / str::split_once / parse / format! / HashMap<String,_> end to end: Verus has no str reasoning, CBMC times out on 3-8 symbolic bytes of String/format!/SipHash code (DESIGN.md section 2), and there is no numeric kernel to carve out.",
+}
+
+NOTES = ("See DESIGN.md. ./check exit codes: 0 every obligation of every unit discharged (KNOWN-FINDING lines are informational); 1 VIOLATION (replay file under replays/<id>/); "
+         "2 undecided (lost anchor, unsupported construct, time-out) - never an alarm. Fix commits made in /repo are listed in known_findings.json ('fixed').")
